@@ -219,7 +219,7 @@ def run(ctx):
     maxlen = 5 if q else 7
     ctx.units("type-sequences-exhaustive", unit_seq, [{"maxlen": maxlen, "shard": i, "nshards": ns} for i in range(ns)], procs=ns)
     ctx.units("dialects-through-parser", unit_dialects, [{"shard": i, "nshards": ns, "variants": [0, 1] if q else [0, 1, 2, 3, 4, 5]} for i in range(ns)], procs=ns)
-    ctx.units("compiler-reuse", unit_reuse, [{"n": 300 if q else 4000, "seed": ctx.seed, "shard": i} for i in range(4 if q else 16)], procs=16)
+    ctx.units("compiler-reuse", unit_reuse, [{"n": 450 if q else 4000, "seed": ctx.seed, "shard": i} for i in range(8 if q else 16)], procs=16)
     from . import textdocs
     textdocs.run_text(ctx, "C10")
     ctx.exhaustive = False
